@@ -16,12 +16,12 @@ func (p *prop) Generate(rng *core.Rand, tier string, emit func(string)) {
 	if p.corpus == nil {
 		p.corpus = loadCorpus()
 	}
-	nSort, nSite, nMut, nGram, nRaw, nLeak := 16000, 1800, 2200, 1300, 900, 200
-	nRec, nImp := 2200, 1300
+	nSort, nSite, nMut, nGram, nRaw, nLeak := 16000, 1800, 2200, 900, 900, 200
+	nRec, nImp := 1700, 1000
 	switch tier {
 	case "thorough":
-		nSort, nSite, nMut, nGram, nRaw, nLeak = 300000, 20000, 55000, 25000, 15000, 2000
-		nRec, nImp = 28000, 16000
+		nSort, nSite, nMut, nGram, nRaw, nLeak = 300000, 14000, 45000, 18000, 15000, 2000
+		nRec, nImp = 22000, 13000
 	case "search":
 		nSort, nSite, nMut, nGram, nRaw, nLeak = 30000, 2000, 5000, 2500, 800, 150
 		nRec, nImp = 6000, 3000
@@ -47,7 +47,7 @@ func (p *prop) Generate(rng *core.Rand, tier string, emit func(string)) {
 	}
 	// ---- generated site blocks through the whole adapter vs model
 	rsite := rng.Fork()
-	for i := 0; i < nSite; i++ {
+	for i := 0; i < nSite*3/5; i++ { // (the other glue streams are sized from nSite as well)
 		emit(genSiteCase(rsite))
 	}
 	// ---- processes adapting several files in turn (order options) and import-argument indices vs model
